@@ -16,11 +16,13 @@ after every explored edge; a difference there is reported as model drift, never 
      history is delta-debugged to a minimal one before it is recorded."""
 import bisect, dis, gc, hashlib, inspect, io, os, subprocess, sys
 from tools.lib import sx
+from tools.lib.streams import Streams, KINDS, draw_kind
 
 CLAIMED = True
 CONFIG = {'assumptions': [
     'file descriptions are tabulated from freshly opened objects by sequential parsing; ids stand for the '
     'full serialisation of headers, entries (tag, every attribute), line-program entries, CFI entries',
+    'the file is presented to the library as a drawn stream kind (tools/lib/streams.py; file@kind in the case); '
     'a DIE is addressed as get_CU_at(u).get_DIE_from_refaddr(o); generators live in slots; the client keeps the '
     'list of its last CFI_entries()/EH_CFI_entries() call and decodes entries of that list; a decoded table is '
     'observed as its rows (register rules in row order) and reg_order',
@@ -167,8 +169,10 @@ class Opened:
         from elftools.elf.elffile import ELFFile
         self.meta = meta
         self.elf = self.symtab = self.dyn = self.strtab = None
+        self.kind = meta.get('kind', 'bytesio')
+        self.S = Streams('pv-c10-')
         if 'E' in parts:
-            self.elf = ELFFile(io.BytesIO(meta['image']))
+            self.elf = ELFFile(self.S.open(meta['image'], self.kind))
             self.symtab = self.elf.get_section(meta['symtab_idx']) if meta['symtab_idx'] is not None else None
             self.dyn = self.elf.get_section(meta['dyn_idx']) if meta['dyn_idx'] is not None else None
             self.strtab = self.symtab.stringtable if self.symtab is not None else None
@@ -179,7 +183,7 @@ class Opened:
                 # relocatable object: the DWARFInfo comes from an ELFFile that is kept, so that get_dwarf_info() can be
                 # called on it again (relocations are applied to the section copies on every call)
                 from elftools.elf.elffile import ELFFile
-                self.dwelf = ELFFile(io.BytesIO(meta['image']))
+                self.dwelf = ELFFile(self.S.open(meta['image'], self.kind))
                 self.dw = self.dwelf.get_dwarf_info()
                 for sid, attr in SIDS.items():
                     sec = getattr(self.dw, attr)
@@ -191,6 +195,10 @@ class Opened:
         self.counts = [0] * NSLOTS
         self.cfi = [None, None]          # the entry lists the client holds (.debug_frame, .eh_frame)
         self.ids = meta['ids']
+
+    def close(self):
+        """closes and deletes the temporary files of this object's streams (in the process that created them)"""
+        self.S.close()
 
     # ---- streams
     def stream(self, sid):
@@ -250,7 +258,10 @@ class Opened:
         k = op[0]
         dw, elf = self.dw, self.elf
         if k == 'Disturb':
-            self.stream(op[1]).seek(op[2])
+            pos = op[2]
+            if op[1] == 0 and self.kind == 'mmap':
+                pos = min(pos, len(self.meta['image']))      # mmap refuses positions past the end of the mapping
+            self.stream(op[1]).seek(pos)
             return 'done'
         if k == 'DIEAtOutside':
             return self.a_die(self.the_die(op[1], op[2]))
@@ -284,7 +295,7 @@ class Opened:
         if k == 'RefetchDwarf':
             if self.dwelf is None:
                 from elftools.elf.elffile import ELFFile
-                self.dwelf = ELFFile(io.BytesIO(self.meta['image']))
+                self.dwelf = ELFFile(self.S.open(self.meta['image'], self.kind))
             self.dwelf.get_dwarf_info()          # the new object is dropped: the client keeps the one it has
             return 'done'
         if k == 'ESectionTyped':
@@ -899,6 +910,14 @@ def load_file(name):
     library keeps at module or class level (shared between file objects) cannot leak into it."""
     if name in _FILES:
         return _FILES[name]
+    if '@' in name:
+        # 'file@kind': the same file (same description, same ids) presented to the library as another stream kind
+        # (tools/lib/streams.py); the kind is part of the case's abstract, so a replay uses it again
+        base, kind = name.split('@', 1)
+        meta = dict(load_file(base), kind=kind)
+        meta.pop('dw_template', None)
+        _FILES[name] = meta
+        return meta
     import multiprocessing
     with multiprocessing.get_context('fork').Pool(1) as pool:
         meta = pool.apply(_load_file, (name,))
@@ -961,7 +980,7 @@ def alphabet(meta, machine):
         pick = {'A': dict(deep='param', sib='member', nos='sub', withsib='struct', gref='gvar', lref='param', other='long'),
                 'B': dict(deep='deep', sib='mem', nos='ns', withsib='T', gref='ptr', lref='k', other='z'),
                 'C': dict(deep='c', sib='a', nos='f2', withsib='f1', gref=None, lref=None, other='d')}[meta['name']]
-        ops += [['Disturb', 1, 0], ['Disturb', 1, info_mid], ['Disturb', 3, 7], ['Disturb', 4, 5]]
+        ops += [['Disturb', 1, 0], ['Disturb', 1, info_mid], ['Disturb', 3, 7]]      # the frame stream: alphabet DF
         ops += [['CUAt', ul], ['CUContaining', ul + 3], ['TopDIE', u0]]
         ops += [['DIEAt'] + list(lab(pick['deep'])), ['DIEAt'] + list(lab(pick['sib']))]
         ops += [['DIEGlobal', lab(pick['other'])[1]]]
@@ -970,7 +989,7 @@ def alphabet(meta, machine):
             ops += [['FollowRef'] + list(lab(pick['gref'])) + [0]]
         if pick['lref']:
             ops += [['FollowRef'] + list(lab(pick['lref'])) + [0]]
-        ops += [['LineProg', u0], ['LineEntries', ul], ['CFI', 0]]
+        ops += [['LineProg', u0], ['LineEntries', ul]]
         ops += [['NewIterCUs', 0], ['NewIterDIEs', 0, u0], ['NewIterChildren', 1] + list(lab(pick['nos'])),
                 ['NewIterSiblings', 1] + list(lab(pick['withsib'])), ['Next', 0], ['Next', 1]]
     elif machine == 'DN':
@@ -1087,15 +1106,18 @@ def alphabet(meta, machine):
 def run_impl(meta, history, stride=0, parts='DE'):
     """-> (answers, abstract states as sx text after every stride-th call and the last one)"""
     o = Opened(meta, parts)
-    answers, states = [], []
-    n = len(history)
-    for j, op in enumerate(history):
-        answers.append(sx.canon(o.do(op)))
-        if j + 1 == n or (stride and (j + 1) % stride == 0):
+    try:
+        answers, states = [], []
+        n = len(history)
+        for j, op in enumerate(history):
+            answers.append(sx.canon(o.do(op)))
+            if j + 1 == n or (stride and (j + 1) % stride == 0):
+                states.append(sx.dumps(o.abs_state()))
+        if not history:
             states.append(sx.dumps(o.abs_state()))
-    if not history:
-        states.append(sx.dumps(o.abs_state()))
-    return answers, states
+        return answers, states
+    finally:
+        o.close()
 
 
 _POOL_META = None
@@ -1335,7 +1357,11 @@ def _pair_worker(task):
     """one history over TWO opened files, in a process of its own (forked from a process that has parsed nothing)"""
     nx, ny, h = task
     objs = [Opened(load_file(nx)), Opened(load_file(ny))]
-    return [objs[w].do(op) for w, op in h]
+    try:
+        return [objs[w].do(op) for w, op in h]
+    finally:
+        for o in objs:
+            o.close()
 
 
 def run_pairs(tasks, workers=16):
@@ -1354,6 +1380,7 @@ def gen(ctx):
     # two differently configured file objects in one process (other byte order): every interleaving of their
     # queries up to the depth bound; each answer is compared with the stateless answer for ITS file
     for nx, ny in PAIRS:
+        nx, ny = nx + '@' + ctx.rng.choice(KINDS[1:]), ny + '@' + draw_kind(ctx.rng)
         mx, my = load_file(nx), load_file(ny)
         if mx.get('broken') or my.get('broken'):
             continue
@@ -1365,15 +1392,25 @@ def gen(ctx):
             # histories that touch both objects are run
             cases += [('pair', [nx + '+' + ny, [[w, op] for w, op in h]]) for h in level
                       if len(h) == 1 or len(set(w for w, _ in h)) == 2]
-    for name in ('A', 'B', 'C', 'D'):
-        meta = load_file(name)
-        if meta.get('broken'):
-            cases.append(('tab', [name, []]))
+    # stream kinds (tools/lib/streams.py): the ELF-level alphabet of every synthesized file runs on a drawn kind that
+    # is NOT BytesIO (real buffered file, 16-byte buffer, mmap, gzip, decoy descriptor, ...); the DWARF alphabets work
+    # on the section copies the library makes, which are BytesIO whatever the file stream is
+    elf_kinds = dict(zip(('A', 'B', 'C'), ctx.rng.sample(KINDS[1:], 3)))
+    for base in ('A', 'B', 'C', 'D'):
+        if load_file(base).get('broken'):
+            cases.append(('tab', [base, []]))
             continue
-        for machine in (('DV', 'DU') if name == 'D' else ('D', 'E', 'DF', 'DN', 'DT', 'DQ', 'DA', 'DU')):
+        for machine in (('DV', 'DU') if base == 'D' else ('D', 'E', 'EK', 'DF', 'DN', 'DT', 'DQ', 'DA', 'DU')):
+            name = base
+            if machine == 'EK':      # the ELF-level alphabet once more, one level less deep, on the drawn stream kind
+                name, machine = base + '@' + elf_kinds[base], 'E'
+                depth_k = max(1, depth - 1)
+            meta = load_file(name)
             if machine == 'DT' and len(meta.get('tu_sigs', [])) < 2:
                 continue
             d = {'DF': depth + 2, 'DN': depth + 5, 'DT': depth + 2, 'DQ': depth + 2, 'DA': depth + 3, 'DV': depth + 1}.get(machine, depth)
+            if '@' in name:
+                d = depth_k
             if not alphabet(meta, machine):
                 continue
             edges, nstates, closed = explore(meta, machine, d)
@@ -1412,6 +1449,9 @@ def gen(ctx):
             continue
         per = max(20, total // len(RANDOM_FILES) // n_hist)
         for _ in range(n_hist):
+            kind = draw_kind(ctx.rng)
+            if kind != 'bytesio':
+                name = name.split('@')[0] + '@' + kind
             h = []
             for _ in range(per):
                 h.append(random_op(ctx.rng, meta))
@@ -1519,6 +1559,8 @@ def evaluate(ctx, cases):
         evaluate_pairs(ctx, cases, pair_idx)      # first: this process has not parsed anything yet
     by_file = {}
     for idx, (kind, a) in enumerate(cases):
+        for part in a[0].split('+'):
+            ctx.bump('stream_kind', part.split('@')[1] if '@' in part else 'bytesio')
         if kind == 'pair':
             continue
         by_file.setdefault(a[0], []).append(idx)
